@@ -86,6 +86,18 @@ def generate(tier, rng):
         px = rng.choice([0.1, 0.5, 0.9])
         cs = "".join("X" if rng.random() < px else "P" for _ in range(sum(1 for t in sc if t == "P") + 2))
         out.append(reader_line("AIOR", mx, fr, cut, "src", sc, cs))
+    # frames larger than 64 KiB: Pending / dropped futures / transient errors after the first 2^16 payload bytes
+    bigp = bytes((i * 7 + 3) & 0xff for i in range(70000))
+    frb = [good(bigp), good(b"\x01\x02")]
+    out.append(reader_line("AIOR", 100000, frb, None, "src", [4, 65536, "P", 3000, "P", 100000], "XX"))
+    out.append(reader_line("AIOR", 100000, frb, None, "src", [4, 65536, "P", 3000, "P", 100000], "PP"))
+    out.append(reader_line("AIOR", 100000, frb, None, "src", [4, 65536, "E", 100000], ""))
+    out.append(reader_line("AIOR", 100000, frb, None, "src", [2, "P", 2, 65536, "P", 1, "E", "P", 100000], "XPX"))
+    out.append(reader_line("AIOR", 100000, frb, None, "src", [100000], ""))
+    out.append(reader_line("AIOR", 100000, frb, None, "src", [4, 30000, "P", 100000], "X"))
+    out.append(reader_line("AIOR", 100000, frb, None, "src", [4, 30000, "E", 100000], ""))
+    out.append(reader_line("AIOR", 100000, frb, None, "src", [4, 65535, "P", 1, "P", 100000], "XX"))
+    out.append(reader_line("AIOR", 100000, frb, None, "src", [3, "P", 1, 1, "P", 65536, "P", 100000], "XXX"))
     return out
 
 def _kv(line, key):
